@@ -370,12 +370,13 @@ impl<'a, R: Resolve, U: Updater> Cloner for Importer<'a, R, U> {
             return Ok(new_ref);
         }
         let obj = self.resolver.resolve(old)?;
-        let clone = obj.deep_clone(self)?;
-
-        let new = self.updater.create(clone)?
-            .get_ref().get_inner();
-
+        // reserve the new number and record it *before* descending, so that a reference cycle
+        // (an object that refers to itself, directly or through others) ends at the memo
+        let promise = self.updater.promise::<Primitive>();
+        let new = promise.get_inner();
         self.map.insert(old, new);
+        let clone = obj.deep_clone(self)?;
+        self.updater.fulfill(promise, clone)?;
 
         Ok(new)
     }
